@@ -1455,6 +1455,11 @@ func toFilterMap(
 		switch t := sourceKey.(type) {
 		case *PropertyIndex:
 			_, ok := innerSourceValue.(map[string]any)
+			if !ok {
+				// the operand list of a compound operator (_and, _or) holds nested clauses as well
+				_, isList := innerSourceValue.([]any)
+				ok = isList && !connor.IsOpSimple(innerSourceKey)
+			}
 			if ok && mapping != nil && t.Index < len(mapping.ChildMappings) {
 				// If the innerSourceValue is also a map, then we should parse the nested clause
 				// using the child mapping, as this key must refer to a host property in a join
